@@ -20,6 +20,7 @@
 #include <functional>
 #include <memory>
 #include <new>
+#include <stdexcept>
 
 #include "cctz/time_zone.h"
 #include "cctz/zone_info_source.h"
@@ -162,7 +163,7 @@ namespace {
 
 class SimSource : public cctz::ZoneInfoSource {
  public:
-  SimSource(CatEntry* e, size_t call_idx, bool eio_active) : e_(e), call_(call_idx), eio_(eio_active) { fac.sources_alive++; }
+  SimSource(CatEntry* e, size_t call_idx, bool eio_active, bool throws = false) : e_(e), call_(call_idx), eio_(eio_active), throws_(throws) { fac.sources_alive++; }
   ~SimSource() override { HarnessScope hs; sim::yield(Y_SRC_DTOR); fac.sources_alive--; }
 
   std::size_t Read(void* ptr, std::size_t size) override {
@@ -170,6 +171,7 @@ class SimSource : public cctz::ZoneInfoSource {
     sim::yield(Y_READ);
     FactoryCall& fc = fac.calls[call_];
     fc.reads++;
+    if (throws_ && fc.reads == 2) { fired("read_throw"); fc.threw = true; throw std::runtime_error("simulated: the zone data stream failed with an exception"); }
     if (fac.sources_alive > 1) fac.overlapping_source_reads++;
     if (fac.read_call_cap > 0 && fc.reads + fc.skips > fac.read_call_cap) fac.read_storm = true;
     const std::string& b = e_->bytes;
@@ -214,6 +216,7 @@ class SimSource : public cctz::ZoneInfoSource {
   CatEntry* e_;
   size_t call_;
   bool eio_;
+  bool throws_ = false;
   size_t pos_ = 0;
   bool short_done_ = false;
 };
@@ -278,11 +281,20 @@ std::unique_ptr<cctz::ZoneInfoSource> SimFactory(
       fac.calls[idx].used_fallback = true;
       { LibraryScope ls; src = fallback(name); }
     } else if (e.kind == CatEntry::BYTES) {
+      if (e.throw_times > 0) {
+        // A factory is user code and may fail by exception; the invocation still ends (for the in-flight bookkeeping).
+        e.throw_times--; fired("factory_throw");
+        sim::yield(Y_FACTORY_OUT);
+        fac.calls[idx].threw = true; fac.calls[idx].seq_out = next_seq(); fac.calls[idx].done = true;
+        throw std::runtime_error("simulated: the zone data service failed with an exception");
+      }
       if (e.null_times > 0) { e.null_times--; fired("null_once"); }
       else {
         bool eio_active = e.eio_at >= 0 && (e.eio_times < 0 || e.sources_made < e.eio_times);
+        bool throws = e.read_throw_times > 0;
+        if (throws) e.read_throw_times--;
         e.sources_made++;
-        src.reset(new SimSource(&e, idx, eio_active));
+        src.reset(new SimSource(&e, idx, eio_active, throws));
       }
     }
   } else if (!fac.wildcard_prefix.empty() && name.compare(0, fac.wildcard_prefix.size(), fac.wildcard_prefix) == 0 &&
